@@ -259,6 +259,9 @@ def energy_hessian(cc, nx=40, nt=16):
     return H
 
 
+ID_BCN_CONE_PSD = 'C16-fsdt-donnell-bcn-cone-not-psd'
+
+
 def impl_case(ctx, rng):
     """one implementation-arm case: list of (identity or None, text)"""
     out = []
@@ -291,8 +294,9 @@ def impl_case(ctx, rng):
         wmin = np.linalg.eigvalsh(ku / np.outer(d, d)).min()
         case['min_eig_scaled'] = float(wmin)
         if wmin < -1e-8:
-            out.append((None, 'k0 of %s (alphadeg %.3g) is not positive semi-definite: smallest eigenvalue of the diagonally scaled '
-                              'free block %.3e' % (model, alphadeg, wmin)))
+            out.append((ID_BCN_CONE_PSD if (model == 'fsdt_donnell_bcn' and alphadeg != 0) else None,
+                        'k0 of %s (alphadeg %.3g) is not positive semi-definite: smallest eigenvalue of the diagonally scaled '
+                        'free block %.3e' % (model, alphadeg, wmin)))
         sc = max(np.abs(m[1]).max() for m in mats) + 1e-300
         lin = np.abs(mats[2][1] - (a * mats[0][1] + b * mats[1][1])).max()
         if lin > 1e-9 * sc * (1 + abs(a) + abs(b)):
@@ -429,6 +433,32 @@ def correspondence(ctx):
                                  'k0 %.6e vs d2U %.6e' % (model, alphadeg, restr, err, tuple(int(x) for x in k), ku[k], Hu[k]),
                                  dict(kind='energy_sweep', model=model, alphadeg=alphadeg, restraints=restr)):
                     return
+    # fixed sweep: symmetry and positive semi-definiteness of EVERY model, cylinder and cone, on every run
+    psd = {}
+    for model in API_MODELS:
+        for alphadeg in (0., 20.):
+            with contextlib.redirect_stdout(QUIET), np.errstate(all='ignore'):
+                cs_ = mk(model, _r.Random(3), alphadeg)
+                cs_._calc_linear_matrices(silent=True)
+            k0s = cs_.k0.toarray()
+            keep = np.setdiff1d(np.arange(k0s.shape[0]), cs_.excluded_dofs)
+            ku = k0s[np.ix_(keep, keep)]
+            dd = np.sqrt(np.abs(np.diag(ku)))
+            dd[dd == 0] = 1.
+            wmin = float(np.linalg.eigvalsh(ku / np.outer(dd, dd)).min())
+            psd['%s@%g' % (model, alphadeg)] = wmin
+            ctx.evaluations += 1
+            bad_ = None
+            if np.abs(k0s - k0s.T).max() != 0:
+                bad_ = (None, 'k0 of %s (alphadeg %g) is not symmetric' % (model, alphadeg))
+            elif wmin < -1e-8:
+                bad_ = (ID_BCN_CONE_PSD if (model == 'fsdt_donnell_bcn' and alphadeg != 0) else None,
+                        'k0 of %s (alphadeg %g) is not positive semi-definite: smallest eigenvalue of the diagonally scaled free '
+                        'block %.3e' % (model, alphadeg, wmin))
+            if bad_ and ctx.violation('C16 fails on the implementation: ' + bad_[1],
+                                      dict(kind='psd_sweep', model=model, alphadeg=alphadeg), identity=bad_[0]):
+                return
+    dist['psd_sweep_min_eig'] = psd
     n = ctx.scale(14, 160)
     for k in range(n):
         case, props = impl_case(ctx, rng)
